@@ -134,26 +134,39 @@ sm.bipartite_vertex_cover = cover_wrapper
 
 
 # ------------------------------------------------------------------ per case
+def merged_terms(terms):
+    """identical operator products merged with EXACT rational coefficients (so that the reference does not suffer from
+    the cancellation of large duplicates: 1*A - 3e-9*A - 1*A); returns [(Fraction, {dof: symbol string})]"""
+    acc = {}
+    for t in terms:
+        per = {}
+        for s_, d in t["ops"]:
+            per.setdefault(d, []).append(s_)
+        key = tuple(sorted((str(d), d, " ".join(ss)) for d, ss in per.items()))
+        c = Fraction(t["num"]) / (Fraction(2) ** t["exp"]) if t["exp"] >= 0 else Fraction(t["num"]) * 2 ** (-t["exp"])
+        acc[key] = acc.get(key, Fraction(0)) + c
+    return [(c, {d: sym for _, d, sym in key}) for key, c in acc.items() if c != 0]
+
+
 def dense_sum(order, case):
     """sum_k c_k kron_i (local matrix of term k on DoF i), built without Op/Model/split_elementary."""
     dims = [b.nbas for b in order]
     dim = int(np.prod(dims)) if dims else 1
     tot = np.zeros((dim, dim))
-    for t in case["terms"]:
-        mats = []
-        for b in order:
-            syms = [s for s, d in t["ops"] if d == b.dof]
-            # the local matrix of the site's elementary operator, as the basis set defines it
-            mats.append(np.asarray(b.op_mat(" ".join(syms))) if syms else np.eye(b.nbas))
+    for c, per in merged_terms(case["terms"]):
         full = np.eye(1)
-        for m in mats:
-            full = np.kron(full, m)
-        tot = tot + (t["num"] / 2.0 ** t["exp"]) * full
+        for b in order:
+            # the local matrix of the site's elementary operator, as the basis set defines it
+            full = np.kron(full, np.asarray(b.op_mat(per[b.dof])) if b.dof in per else np.eye(b.nbas))
+        tot = tot + float(c) * full
     return tot
 
 
 def relerr(a, b):
-    scale = max(1.0, float(np.abs(b).max()) if b.size else 1.0)
+    """relative to the operator's OWN scale (never an absolute floor: the property is scale covariant)"""
+    scale = float(np.abs(b).max()) if b.size else 0.0
+    if scale == 0.0:
+        return float(np.abs(a).max()) if a.size else 0.0
     return float(np.abs(a - b).max() / scale) if a.size else 0.0
 
 
@@ -279,7 +292,7 @@ def run_case(case, rng):
         cf.append(None if c is None else [c.numerator, c.denominator])
     res["mo_coeff"] = cf
     # ---- the same construction with algo="qr": the logged factors are the witness of ttno_sound_qr
-    if case.get("qr_sym"):
+    if case.get("qr_sym") and not case.get("wide"):
         LOG["steps"] = []
         try:
             mpo_q, mpoqn_q = st.construct_symbolic_ttno(tree, terms, algo="qr")
@@ -303,12 +316,19 @@ def run_case(case, rng):
         perm = list(real_order)
         rng.shuffle(perm)
         d["ttno_perm_vs_sum"] = relerr(ttno.todense(perm), dense_sum(perm, case))
-        mpo_chain = Mpo(Model(real_order, terms))
+        wide = bool(case.get("wide"))
+        # the default algo="qr" of Mpo filters with an absolute 1e-10 (known finding of C01); wide-range lists use a graph algorithm
+        mpo_chain = Mpo(Model(real_order, terms), algo="Hopcroft-Karp") if wide else Mpo(Model(real_order, terms))
         d["mpo_vs_sum"] = relerr(mpo_chain.todense(), ref)
+        if wide:
+            cmin = min(abs(t["num"] / 2.0 ** t["exp"]) for t in case["terms"])
+            # weak couplings next to strong fields: the error measured against the SMALLEST coefficient
+            d["ttno_vs_sum_rel_smallest"] = float(np.abs(ttno.todense(real_order) - ref).max() / cmin)
+            d["ttno_vs_mpo_rel_smallest"] = float(np.abs(ttno.todense(real_order) - mpo_chain.todense()).max() / cmin)
         d["ttno_vs_mpo"] = relerr(ttno.todense(real_order), mpo_chain.todense())
         lin = TTNO(BasisTree.linear(list(real_order)), terms, algo=algo)
         d["linear_ttno_vs_mpo"] = relerr(lin.todense(real_order), mpo_chain.todense())
-        if case.get("qr_dense"):
+        if case.get("qr_dense") and not wide:
             tq = TTNO(tree, terms, algo="qr")
             d["ttno_qr_vs_sum"] = relerr(tq.todense(real_order), ref)
         d["dim"] = int(ref.shape[0])
